@@ -76,6 +76,11 @@ TARGETED = [
     "a { b: adjust-color(red, $zz: 1, $hue: 2, $aa: 3); }",
     "@function f($a, $args...) {@return $a} a { b: f($zz: 1, $aa: 2); }",
     "@mixin m($args...) { x: length($args); } a { @include m($zz: 1, $aa: 2); }",
+    # long-running victims for the concurrent stratum: hundreds of @extend rounds whose trimming relies on per-selector
+    # identities, so that other threads start and finish many compilations while one of these is in flight
+    "@for $i from 1 through 70 { .f#{$i}.g#{$i} { x: $i } .h#{$i} { @extend .f#{$i}; @extend .g#{$i}; } }",
+    "%base { x: y } @for $i from 1 through 50 { .zz#{$i} { @extend %base; @extend .zz#{$i - 1} !optional; } .q .zz#{$i}.w { p: $i } }",
+    ".s.t, .u .v {x: y} @for $i from 1 through 60 { .w#{$i} { @extend .s; @extend .t; @extend .v; } .k#{$i} .s { z: $i } }",
 ]
 
 IDENT_RX = re.compile(r"[A-Za-z_][A-Za-z0-9_-]*")
